@@ -20,7 +20,7 @@ META = {
     "transitions = (state, slot, allele) entries of the Gibbs/MH vectors and every (scan order, choice sequence) path of the "
     "compound step; non-trivial = ploidy >= 2 and positive posterior",
     "bound": {
-        "quick": "H<=4, P<=4; freqs in {None, flat, skewed, zero-first, zero-last}; F in {0,0.004,0.2,0.7}; compound matrix for P<=3,H<=3 (+P=4,H=2)",
+        "quick": "H<=4, P<=4; freqs in {None, flat, skewed, zero-first, zero-last}; also haplotype lists holding one sequence twice (H in {3,4}); F in {0,0.004,0.2,0.7}; compound matrix for P<=3,H<=3 (+P=4,H=2)",
         "thorough": "H<=5, P<=6 (Gibbs/MH); compound matrix up to (H,P) = (5,4), (3,5), (2,6)",
     },
     "assumptions": [
@@ -56,6 +56,16 @@ def plan(tier, seed):
             for fname, _ in freq_options(H):
                 for F in FS:
                     jobs.append(("slot", H, P, fname, F, seed, math.comb(H + P - 1, P) * P * H))
+    # haplotype lists that contain one sequence twice
+    for H in (3, 4):
+        for P in (2, 3):
+            for fname in ("none+dup", "skew+dup", "zero-last+dup"):
+                for F in (0.0, 0.2):
+                    jobs.append(("slot", H, P, fname, F, seed, math.comb(H + P - 1, P) * P * H))
+    for fname in ("skew+dup", "none+dup"):
+        for F in (0.0, 0.3):
+            for st in (0, 1):
+                jobs.append(("compound", 3, 2, fname, F, st, seed, 2 * 9 * 6))
     cm = [(H, P) for H in (2, 3) for P in (1, 2, 3)] + [(2, 4)]
     if tier == "thorough":
         cm += [(3, 4), (4, 2), (4, 3), (4, 4), (5, 2), (5, 3), (5, 4), (3, 5), (2, 6), (2, 5)]
